@@ -11,6 +11,7 @@ import (
 
 	"github.com/olive-io/bpmn/v2/pkg/tracing"
 
+	"verifharness/internal/eng"
 	"verifharness/internal/rec"
 	"verifharness/internal/sched"
 )
@@ -74,9 +75,50 @@ func init() {
 			} else {
 				stats["perturb_level_0"]++
 			}
+			if idx%3 == 0 {
+				c09wideFork(out, idx, rng, tier, stats)
+				return
+			}
 			runProgCase(out, "c09g", idx, rng, tier, stats, genOptsC01(idx, tier))
 		},
 	}
+}
+
+// c09wideFork: a loop around a parallel fork with 3..7 outgoing flows (some branches empty, some a task, sometimes a
+// nested fork): the flow that reaches the fork announces 2..6 new flows in ONE FlowTrace and starts them right after
+// it, which is where an announcement could be overtaken by the first trace of a flow it announces.
+func c09wideFork(out *rec.Out, idx int, rng *rec.Rng, tier string, stats map[string]int) {
+	g := eng.NewGraph()
+	ntask := 0
+	task := func() eng.Frag {
+		ntask++
+		return g.Task("task", fmt.Sprintf("T%d", ntask), "")
+	}
+	var fork func(depth int) eng.Frag
+	fork = func(depth int) eng.Frag {
+		k := 3 + rng.Intn(5)
+		br := make([]eng.Frag, k)
+		for i := range br {
+			switch r := rng.Intn(6); {
+			case r < 3: // empty branch: straight to the join
+			case r < 5 || depth > 0:
+				br[i] = task()
+			default:
+				br[i] = fork(depth + 1)
+			}
+		}
+		stats[fmt.Sprintf("widefork_width_%d", k)]++
+		return g.Split("parallelGateway", "parallelGateway", "", br, nil, -1)
+	}
+	ntask++
+	lt := g.Task("task", fmt.Sprintf("L%d", ntask), "", "c1")
+	body := g.Seq(lt, fork(0))
+	rounds := 2 + rng.Intn(3)
+	g.Wrap(g.Loop("", body, &eng.Cond{Op: "lt", Var: "c1", K: rounds}))
+	varsInt := map[string]int{"c1": 0, "v0": 0}
+	vars := map[string]any{"c1": 0, "v0": 0}
+	stats["widefork_cases"]++
+	runGraphCase(out, "c09g", g, vars, varsInt, rng, stats, map[string]string{lt.Entry.ID: "c1"}, genOpts{})
 }
 
 type c09msg struct{ s, q int }
